@@ -108,11 +108,22 @@ class Deadlock(Exception):
     pass
 
 
+_ITER_MAX, _ITER_LAST = [0], [0]
+
+
 def _guard_vloop():
     """a serial evaluator's loop with nothing ready and no timer can never wake up again"""
     orig = vloop.VLoop._run_once
 
     def _run_once(self):
+        # cancelled timers at the head of the heap do not count (the loop would pop them and then block in
+        # select() for ever): purge them first, exactly as vloop.VLoop._run_once does
+        import heapq
+
+        while self._scheduled and self._scheduled[0]._cancelled:
+            h = heapq.heappop(self._scheduled)
+            h._scheduled = False
+            self._timer_cancelled_count -= 1
         if not self._ready and not self._scheduled:
             raise Deadlock("event loop idle for ever: every remaining job is blocked")
         return orig(self)
@@ -143,6 +154,11 @@ def drive(case, vt):
     _REG = {}
     if vt is not None:
         vt.reset()
+        _ITER_MAX[0] = max(_ITER_MAX[0], _ITER_LAST[0])
+        # scenarios here have <= a few dozen jobs and need a few thousand loop iterations; a tree whose gather
+        # live-locks (busy re-waiting on a finished task while the rest is blocked for ever) must not cost the
+        # default 5 million iterations per scenario
+        vt.max_iterations = 20_000
     res = {"log": None, "metas": {}, "returned": [], "error": None, "final_queue": None, "where": None, "nsub": 0}
     try:
         ev = _observed(queued(base))(fn, num_workers=case["workers"], queue=list(case["queue"]),
@@ -233,6 +249,9 @@ def drive(case, vt):
         ex = getattr(ev, "executor", None)
         if ex is not None:
             ex.shutdown(wait=True)
+    if vt is not None:
+        _ITER_LAST[0] = vt.iterations
+        _ITER_MAX[0] = max(_ITER_MAX[0], vt.iterations)
     with _LOCK:
         res["log"] = [list(e) for e in _LOG]
     return res
@@ -593,9 +612,16 @@ def _same(case, vt, clause):
     return bool(bad) and bad[0][0] == clause, (res, bad)
 
 
+_SHRINK_SPENT = [0.0]  # seconds spent shrinking in this run (a deadlocking tree makes every drive slow)
+_SHRINK_TOTAL_S = 45.0
+
+
 def shrink(case, vt, clause, budget=80):
     cur = json.loads(json.dumps(case))
     tries, changed = 0, True
+    t_start = time.time()
+    if _SHRINK_SPENT[0] >= _SHRINK_TOTAL_S:
+        return cur
 
     def cands(c):
         for wi, w in enumerate(c["waves"]):
@@ -638,8 +664,10 @@ def shrink(case, vt, clause, budget=80):
             if ok:
                 cur, changed = d, True
                 break
-            if tries >= budget:
+            if tries >= budget or _SHRINK_SPENT[0] + (time.time() - t_start) >= _SHRINK_TOTAL_S:
+                changed = False
                 break
+    _SHRINK_SPENT[0] += time.time() - t_start
     return cur
 
 
@@ -809,6 +837,7 @@ def run(ck):
     ck.extra_cov.pop("_last_error", None)
     orders = ck.extra_cov.pop("_orders", set())
     ck.extra_cov["distinct_completion_orders"] = len(orders)
+    ck.extra_cov["max_vloop_iterations_in_one_scenario"] = _ITER_MAX[0]
 
 
 def replay(ck, case):
